@@ -108,6 +108,18 @@ func (c *fctx) callStmt(o *out, ind int, call *ast.CallExpr, lhs []ast.Expr, isD
 		}
 		return
 	}
+	if id, ok := call.Fun.(*ast.Ident); ok && f == nil && lhs != nil { // x, y := fv(args) with fv a function value
+		if v, ok := c.info.Uses[id].(*types.Var); ok && c.x.kindOf(v.Type()) == kFunc {
+			sig := v.Type().Underlying().(*types.Signature)
+			cs := c.call(call)
+			tmp := c.fresh("__f")
+			o.emit(ind, "let %s := %s", tmp, cs)
+			for i, l := range lhs {
+				c.define(o, ind, l, proj(tmp, i, sig.Results().Len()), isDefine)
+			}
+			return
+		}
+	}
 	if f == nil && lhs == nil { // a call of a function value or of sx.arpVerify(..)(..) as a statement
 		cs := c.call(call)
 		o.emit(ind, "discard (%s)", strings.TrimSuffix(strings.TrimPrefix(cs, "(← "), ")"))
@@ -564,6 +576,13 @@ func (c *fctx) sockCall(o *out, ind int, se *ast.SelectorExpr, call *ast.CallExp
 		c.define(o, ind, lhs[1], tmp+".2", isDefine)
 	case "Write":
 		name := c.x.envUse(c.envName(), "SockWrite", []string{"Bytes"}, "GoErr")
+		if len(lhs) == 2 { // n, err := s.Write(b): the count is the length on success (trusted)
+			tmp := c.fresh("__w")
+			o.emit(ind, "let %s := (← %s %s)", tmp, name, c.expr(call.Args[0]))
+			c.define(o, ind, lhs[0], "(Int.ofNat "+c.expr(call.Args[0])+".length)", isDefine)
+			c.define(o, ind, lhs[1], tmp, isDefine)
+			return
+		}
 		if lhs != nil {
 			bad("socket Write with results at %s", c.site(call.Pos()))
 		}
